@@ -392,6 +392,19 @@ func checkCalls(fset *token.FileSet, pos token.Pos, name string, pkgPath string,
 				fset.Position(pos),
 				fmt.Errorf("inject %s: provider for %s returns error but injection not allowed to fail", name, ts)))
 		}
+		if c.kind != valueExpr && c.pkg != nil && c.pkg.Path() != pkgPath {
+			// The generated code names the provider function, the struct type
+			// and its fields, or the selected field: they must be visible
+			// from the injector's package.
+			for _, n := range append([]string{c.name}, c.fieldNames...) {
+				if n != "" && !ast.IsExported(n) {
+					ts := types.TypeString(c.out, nil)
+					ec.add(notePosition(
+						fset.Position(pos),
+						fmt.Errorf("inject %s: provider for %s uses unexported identifier %s of package %s", name, ts, n, c.pkg.Path())))
+				}
+			}
+		}
 		if c.kind == valueExpr {
 			if err := accessibleFrom(c.valueTypeInfo, c.valueExpr, pkgPath); err != nil {
 				// TODO(light): Display line number of value expression.
